@@ -3,29 +3,32 @@
 (* probe kernels (error code looked up from a table by (chain, time)), then  *)
 (* everything the results / summary API reports, and round trips.            *)
 (* Hdr: K, C, sched (epochs after the initial one), tbl[k][c][j], names[k],  *)
-(*      book (code -> message, as a sequence indexed by code + 1).           *)
-EXTENDS Results, TraceBatch
+(*      books (per kernel: code -> message).                                  *)
+EXTENDS Results, TraceBatch, Integers
 
 KK == Hdr.K
 CC == Hdr.C
 Sched == [i \in 1..Len(Hdr.sched) |-> Cfg(Hdr.sched[i].type, Hdr.sched[i].dur, Hdr.sched[i].thin)]
 Tbl == Hdr.tbl
 HasPost == \E i \in 1..Len(Sched) : Sched[i].type = POST
-Msg(code) == Hdr.book[code + 1]
+\* every kernel class documents its own messages (Hdr.books[k]: code spelt as a string -> message)
+Msg(k, code) == Hdr.books[k][ToString(code)]
+Codes == {-1, 1, 2}
+AllMsgs == UNION {{Hdr.books[k][c] : c \in DOMAIN Hdr.books[k]} : k \in 1..KK}
 
 TInit == BatchInit
 
 ExpSummary ==
-  {[kernel |-> Hdr.names[k], code |-> code, msg |-> Msg(code),
+  {[kernel |-> Hdr.names[k], code |-> code, msg |-> Msg(k, code),
     total |-> [c \in 1..CC |-> DirectTotal(Tbl, Sched, k, code, c)],
     post  |-> [c \in 1..CC |-> DirectCount(Tbl, Sched, k, code, c, "posterior")]]
-   : k \in 1..KK, code \in {1, 2}} \cap
-  {r \in [kernel : SeqToSet(Hdr.names), code : {1, 2}, msg : SeqToSet(Hdr.book),
+   : k \in 1..KK, code \in Codes} \cap
+  {r \in [kernel : SeqToSet(Hdr.names), code : Codes, msg : AllMsgs,
           total : [1..CC -> 0..T(Sched)], post : [1..CC -> 0..T(Sched)]] :
        \E k \in 1..KK : Hdr.names[k] = r.kernel /\ r.code \in CodesOf(Tbl, Sched, k, CC)}
 
 ExpRowsPerChain ==
-  UNION {{[kernel |-> Hdr.names[k], code |-> code, msg |-> Msg(code), phase |-> ph, chain |-> c - 1,
+  UNION {{[kernel |-> Hdr.names[k], code |-> code, msg |-> Msg(k, code), phase |-> ph, chain |-> c - 1,
            count |-> DirectCount(Tbl, Sched, k, code, c, ph)]
           : c \in 1..CC, ph \in {"warmup", "posterior"}, code \in CodesOf(Tbl, Sched, k, CC)}
          : k \in 1..KK}
@@ -34,7 +37,7 @@ RECURSIVE SumChains(_, _, _, _, _)
 SumChains(k, code, ph, c, acc) ==
   IF c > CC THEN acc ELSE SumChains(k, code, ph, c + 1, acc + DirectCount(Tbl, Sched, k, code, c, ph))
 ExpRowsMerged ==
-  UNION {{[kernel |-> Hdr.names[k], code |-> code, msg |-> Msg(code), phase |-> ph,
+  UNION {{[kernel |-> Hdr.names[k], code |-> code, msg |-> Msg(k, code), phase |-> ph,
            count |-> SumChains(k, code, ph, 1, 0)]
           : ph \in {"warmup", "posterior"}, code \in CodesOf(Tbl, Sched, k, CC)}
          : k \in 1..KK}
